@@ -29,6 +29,7 @@ Inductive rej :=
 | RLoopFunc           (* index/isFirst/isLast applied to something that is not the variable of an enclosing loop *)
 | RUnusedParam        (* params %q are unused *)
 | RBothParamKinds     (* template may not have both soydoc and header params specified *)
+| RDuplicateTemplate  (* template %q is defined more than once *)
 | RNoNamespace        (* expected namespace / namespace required *)
 | RShape.             (* a tree the Go types rule out (TemplateNode.Body is a *ListNode, ...) *)
 
@@ -199,41 +200,37 @@ Fixpoint split_header (ns : list node) : list (bstr * bool) * list node :=
 
 Definition is_nil {A} (l : list A) : bool := match l with [] => true | _ => false end.
 
-(* the loop over soyfile.Body: [prev] is Body[i-1] *)
+Inductive add_result := AddOk (ts : list template) | AddRej (r : rej).
+
+(* the loop over soyfile.Body: [prev] is Body[i-1]; [acc] is r.Templates (its names are the keys of fileByTemplateName) *)
 Fixpoint add_templates (fname : bstr) (ns : bstr * N) (prev : option node) (body : list node) (acc : list template)
-  : outcome (list template) :=
+  : add_result :=
   match body with
-  | [] => Ok acc
+  | [] => AddOk acc
   | (NTemplate p name tbody ae priv as tn) :: r =>
       match tbody with
       | NList lp nodes =>
           match (match prev with Some (NSoyDoc _ ps) => soydoc_params ps | _ => Some [] end) with
-          | None => OutOfModel
+          | None => AddRej RShape                                     (* []*SoyDocParamNode in Go *)
           | Some sd =>
               let '(hs, rest) := split_header nodes in
-              if negb (is_nil hs) && negb (is_nil sd) then Err []     (* both soydoc and header params *)
+              if negb (is_nil hs) && negb (is_nil sd) then AddRej RBothParamKinds
+              else if existsb (fun t => bstr_eqb (t_name t) name) acc then AddRej RDuplicateTemplate
               else
                 let t := {| t_name := name; t_node := NTemplate p name (NList lp rest) ae priv;
                             t_ns_name := fst ns; t_ns_autoescape := snd ns;
                             t_params := sd ++ hs; t_file := fname |} in
                 add_templates fname ns (Some tn) r (acc ++ [t])
           end
-      | _ => OutOfModel                              (* TemplateNode.Body is a *ListNode *)
+      | _ => AddRej RShape                                            (* TemplateNode.Body is a *ListNode *)
       end
   | x :: r => add_templates fname ns (Some x) r acc
   end.
 
-Inductive add_result := AddOk (ts : list template) | AddRej (r : rej).
-
 Definition add_file (acc : list template) (f : soyfile) : add_result :=
   match file_namespace (sf_body f) with
   | None => AddRej RNoNamespace
-  | Some ns =>
-      match add_templates (sf_name f) ns None (sf_body f) acc with
-      | Ok ts => AddOk ts
-      | Err _ => AddRej RBothParamKinds
-      | _ => AddRej RShape
-      end
+  | Some ns => add_templates (sf_name f) ns None (sf_body f) acc
   end.
 
 Fixpoint add_files (acc : list template) (fs : list soyfile) : add_result :=
